@@ -498,7 +498,7 @@ func (c *c17hist) Summary(w *sim.World) (string, []string) {
 
 var C17 = register(&HistProp{ID: "C17",
 	Genesis: func(t *rapid.T) *sim.GenSpec {
-		return sim.DrawGenesis(t, sim.GenOpts{UsedInGen: true, UpperPairGen: true, ManyUsed: true, ShortToken: true, Decoys: true, AbsentOpt: true, CaseLimits: true, ManyRegistry: true})
+		return sim.DrawGenesis(t, sim.GenOpts{UsedInGen: true, UpperPairGen: true, ManyUsed: true, ShortToken: true, Decoys: true, AbsentOpt: true, CaseLimits: true, ManyRegistry: true, NoAttesters: true})
 	},
 	Next: func(g *sim.G, i int) *sim.Op {
 		return Mix{Send: 2, Dep: 2, Recv: 3, Admin: 12, DepValid: 85, RecvBroken: 15, AdminHolder: 88}.next(g)
